@@ -219,7 +219,6 @@ impl IndySdkToAriesAskarMigration {
                      (name, SUBSTR(value, 1, 12)) WHERE plaintext=0;
                  CREATE INDEX ix_items_tags_name_plain ON items_tags
                      (name, value) WHERE plaintext=1;
-                 COMMIT;
                  ",
         )
         .execute(&mut self.conn)
@@ -287,7 +286,6 @@ impl IndySdkToAriesAskarMigration {
     async fn finish_upgrade(&mut self) -> Result<(), Error> {
         sqlx::query(
             r#"
-        BEGIN EXCLUSIVE TRANSACTION;
         DROP TABLE items_old;
         DROP TABLE metadata;
         DROP TABLE tags_encrypted;
